@@ -838,7 +838,7 @@ func (x *Exec) step(fr *Frame, ins ssa.Instruction) {
 			x.inputs = x.inputs[:n]
 			st.regs[i] = PtrV{Obj: o, Nil: False()}
 		default:
-			unsup("IndexAddr on %T", base)
+			unsup("IndexAddr on %T (%s; X = %s : %s)", base, i, i.X, i.X.Type())
 		}
 	case *ssa.Store:
 		x.store(x.get(i.Addr), x.get(i.Val), True())
@@ -2444,6 +2444,9 @@ func (x *Exec) callSiteClauses(fr *Frame, fn *ssa.Function, args []Value, pos to
 			found := false
 			for j, q := range fn.Params {
 				if q.Name() == p.Name() && j < len(args) {
+					if !types.Identical(q.Type(), p.Type()) {
+						unsup("call clause %s: binder %q is declared %s, the parameter of %s is %s (contract unbound)", c.Label, p.Name(), p.Type(), shortFn(fn), q.Type())
+					}
 					ga[i], found = args[j], true
 				}
 			}
